@@ -170,6 +170,68 @@ def job_scaling(with_nugget, tier):
     return out
 
 
+def job_krige_history(seq, tier):
+    """the wrapped Krige object on its own: after call / mean= / trend= / normalizer= in any order the next estimate equals that
+    of a freshly built object with the final settings (no stale prepared conditioning values)"""
+    gs, kb = setup()
+    T = core.tier_timeout(tier)
+    sy = symbols()
+    wv = c05.wvars(sy)
+    rb = ("krige_history", lambda v: {"seq": list(seq), "values": v})
+    hid = "C07/krige_history/" + ">".join(seq)
+    out = []
+
+    def run():
+        kstub.reset()
+        for s_ in (sy["var"], sy["len"]):
+            sym.assume(s_ > 0)
+        for z in sy["cval"]:
+            sym.assume(z > 0)  # (domain of the log-normaliser used by the 'normalizer' operation)
+        UFModel = kstub.uf_model_class()
+        model = UFModel(dim=1, var=sy["var"], len_scale=sy["len"])
+        cp, cv = [list(r) for r in sy["cpos"]], list(sy["cval"])
+        k = gs.krige.Krige(model, cp, cv, mean=sy["mean"], unbiased=False)
+        st = dict(mean=sy["mean"], trend=None, norm=None)
+        pos = [list(r) for r in sy["tpos"]]
+        for op in seq:
+            if op == "call":
+                k(pos)
+            elif op == "mean":
+                k.mean = sy["mean2"]
+                st["mean"] = sy["mean2"]
+            elif op == "trend":
+                k.trend = sy["trend2"]
+                st["trend"] = sy["trend2"]
+                for z in sy["cval"]:
+                    sym.assume(z - sy["trend2"] > 0)
+            elif op == "normalizer":
+                k.normalizer = gs.normalizer.LogNormal()
+                st["norm"] = "log"
+        fld, var = k(pos)
+        k2 = gs.krige.Krige(model, cp, cv, mean=st["mean"], trend=st["trend"], normalizer=(gs.normalizer.LogNormal() if st["norm"] else None), unbiased=False)
+        f2, v2 = k2(pos)
+        return c11.flat(fld), c11.flat(f2), c11.flat(var), c11.flat(v2), rnp.array(k._krige_cond, dtype=object).copy(), rnp.array(k2._krige_cond, dtype=object).copy(), list(kstub.INV_LOG)
+
+    n_ok = 0
+    for pi, p in enumerate(explore(run, max_paths=64)):
+        base = f"{hid}/path{pi}"
+        if p.exc is not None:
+            out.append(rec(base, "error", detail=f"{p.exc!r} {p.tb}"))
+            continue
+        n_ok += 1
+        fld, f2, var, v2, c1, c2, log = p.out
+        C = p.conds + unify_inverses(log)
+        for i in range(len(c1)):
+            out.append(prove(f"{base}/prepared conditioning value[{i}] == freshly built object", p.conds, core.eq(c1[i], c2[i]), T, witness_vars=wv, replay=rb, pairwise=False))
+        for i, (a, b) in enumerate(zip(fld, f2)):
+            out.append(prove(f"{base}/estimate[{i}] == freshly built object", C, core.eq(a, b), T, witness_vars=wv, replay=rb, pairwise=False))
+        for i, (a, b) in enumerate(zip(var, v2)):
+            out.append(prove(f"{base}/variance[{i}] == freshly built object", C, core.eq(a, b), T, witness_vars=wv, replay=rb, pairwise=False))
+    if not n_ok:
+        out.append(rec(hid + "/reach", "vacuous"))
+    return out
+
+
 OPS = ["call_same", "call_newseed", "call_newpos", "cond_values", "cond_positions", "model_refresh", "mean", "trend"]
 
 
@@ -281,6 +343,8 @@ def jobs(tier, seed):
             seqs += [s_ for s_ in itertools.product(core_ops, repeat=3) if all(s_.count(o) <= 1 for o in once)]
         for s in seqs:
             js.append(Job(f"hist-{variant}-{'>'.join(s)}", job_history, variant, s, tier))
+    for s in (("mean",), ("call", "mean"), ("call", "trend"), ("call", "normalizer"), ("call", "mean", "call", "trend"), ("call", "normalizer", "mean")):
+        js.append(Job(f"krige-hist-{'>'.join(s)}", job_krige_history, s, tier))
     # 2-D anisotropic model: the refresh after an in-place change of the geometry
     for s in (("anis_refresh",), ("anis_refresh", "call_same"), ("call_newseed", "anis_refresh"), ("cond_values", "anis_refresh"), ("anis_refresh", "cond_values")):
         js.append(Job(f"hist-ordinary-d2-{'>'.join(s)}", job_history, "ordinary", s, tier, 2))
@@ -455,4 +519,34 @@ def replay_scaling(inputs):
     return bool(ok), f"var={var} nugget={nug} kriging variances={kv.tolist()} reproduced variance={np.asarray(tot).tolist()}"
 
 
-REPLAY = {"formula": replay_formula, "history": replay_history, "scaling": replay_scaling}
+def replay_krige_history(inputs):
+    import numpy as np
+    import gstools as gs
+
+    c = _conc(inputs.get("values") or {})
+    seq = list(inputs["seq"])
+    cval = np.abs(np.asarray(c["cval"], dtype=float)) + 1.5
+    model = gs.Exponential(dim=1, var=c["var"], len_scale=c["len"])
+    k = gs.krige.Krige(model, c["cpos"], cval, mean=c["mean"], unbiased=False)
+    st = dict(mean=c["mean"], trend=None, norm=None)
+    tr2 = min(abs(float(c["trend2"])), 1.0)
+    for op in seq:
+        if op == "call":
+            k(c["tpos"])
+        elif op == "mean":
+            k.mean = c["mean2"]
+            st["mean"] = c["mean2"]
+        elif op == "trend":
+            k.trend = tr2
+            st["trend"] = tr2
+        elif op == "normalizer":
+            k.normalizer = gs.normalizer.LogNormal()
+            st["norm"] = "log"
+    fld, var = k(c["tpos"])
+    k2 = gs.krige.Krige(model, c["cpos"], cval, mean=st["mean"], trend=st["trend"], normalizer=(gs.normalizer.LogNormal() if st["norm"] else None), unbiased=False)
+    f2, v2 = k2(c["tpos"])
+    ok = np.allclose(fld, f2, rtol=1e-8, atol=1e-10) and np.allclose(var, v2, rtol=1e-8, atol=1e-10)
+    return bool(ok), f"Krige seq={seq}: after history field={np.asarray(fld).tolist()} fresh={np.asarray(f2).tolist()}"
+
+
+REPLAY = {"formula": replay_formula, "history": replay_history, "scaling": replay_scaling, "krige_history": replay_krige_history}
